@@ -353,6 +353,24 @@ fn corpus(thorough: bool) -> Vec<Case> {
     for (n, v) in &valid {
         cs.push(Case { kind: format!("valid-{}", n), fault: None, sent: Sent::raw(v), end: End::Wait });
     }
+    // valid requests whose logged header (`log_headers`) carries long, non-ASCII and non-UTF-8
+    // values: what a client puts into a header the server logs must not matter to anyone else
+    let trace_values: Vec<(&str, Vec<u8>)> = vec![
+        ("ascii300", vec![b'a'; 300]),
+        ("len256", vec![b'a'; 256]),
+        ("split2", [vec![b'a'; 255], "\u{e9}".as_bytes().to_vec()].concat()),
+        ("split3", [vec![b'a'; 254], "\u{20ac}".as_bytes().to_vec(), vec![b'z'; 10]].concat()),
+        ("split4", [vec![b'a'; 253], "\u{1f600}".as_bytes().to_vec(), vec![b'z'; 40]].concat()),
+        ("split4b", [vec![b'a'; 255], "\u{1f600}".as_bytes().to_vec()].concat()),
+        ("latin1", [vec![b'a'; 250], vec![0xe9, 0xff, 0xfe, 0x80, 0xc3, 0x28], vec![b'b'; 20]].concat()),
+        ("multibyte1000", "\u{e9}\u{20ac}\u{1f600}".repeat(110).into_bytes()),
+    ];
+    for (n, val) in &trace_values {
+        let mut v = b"GET /health HTTP/1.1\r\nhost: localhost\r\nconnection: close\r\nx-trace: ".to_vec();
+        v.extend_from_slice(val);
+        v.extend_from_slice(b"\r\n\r\n");
+        cs.push(Case { kind: format!("valid-loghdr-{}", n), fault: None, sent: Sent::raw(&v), end: End::Wait });
+    }
     let mut two = get("/health");
     two.extend_from_slice(&build_request("POST", "/echo", &[], b"first"));
     two.extend_from_slice(&v_chunked());
